@@ -2,6 +2,8 @@
 
     Input:  mode p0 op*      mode 0: fault-free (predicted), mode 1: with connection faults ([96]:
                              not predicted, the harness oracle judges alone); p0 = initial payload
+                             modes 2, 3: programs with per-receiver item size limits and watch::forward
+                             (harness/src/watch_size.rs; outside the model: [96], oracle only)
       0 p        Sender::send(p)                        -> 1 Ok / 0 Err
       1 p        Sender::send_modify(p)
       2          drop the sender
@@ -267,5 +269,7 @@ Definition run_watch (inp : list N) : list N :=
   | 0 :: p :: ops =>
       run_ops (S (length ops)) (mkRS (init p) false false [Some 0] [0] [true]) ops
   | 1 :: _ => [96]
+  | 2 :: _ => [96]
+  | 3 :: _ => [96]
   | _ => [98]
   end.
